@@ -489,18 +489,29 @@ func parseRaces(stderr string) map[string]string {
 		// sections: "Write at ... by goroutine N:" / "Previous read at ...:"
 		secs := regexp.MustCompile(`(?m)^(Read|Write|Previous read|Previous write|Atomic|Previous atomic)[^\n]*\n`).Split(p, -1)
 		var tops []string
+		lib := 0
 		for _, s := range secs[1:] {
+			// owner frame of this access: the first frame outside the Go runtime / standard library
 			for _, m := range raceFn.FindAllStringSubmatch(s, -1) {
 				fn := m[1]
-				if strings.Contains(fn, "go-oryx-lib") && !strings.Contains(fn, "verifshim") {
-					fn = fn[strings.Index(fn, "go-oryx-lib/")+len("go-oryx-lib/"):]
-					tops = append(tops, fn)
+				if strings.Contains(fn, "go-oryx-lib/") && !strings.Contains(fn, "verifshim") {
+					tops = append(tops, fn[strings.Index(fn, "go-oryx-lib/")+len("go-oryx-lib/"):])
+					lib++
+					break
+				}
+				if strings.HasPrefix(fn, "main.") || strings.HasPrefix(fn, "verif/") || strings.Contains(fn, "verifshim") {
+					tops = append(tops, "harness:"+fn)
 					break
 				}
 			}
 			if len(tops) == 2 {
 				break
 			}
+		}
+		if lib == 0 {
+			// both accesses are in harness code: a harness bug, not a property violation
+			fmt.Fprintf(os.Stderr, "HARNESS-RACE (ignored for the verdict, fix the harness): %v\n", tops)
+			continue
 		}
 		sort.Strings(tops)
 		k := "data-race/" + strings.Join(tops, "+")
